@@ -371,6 +371,20 @@ pub fn c19_configs(tier: Tier) -> Vec<(Cfg, usize)> {
     c.root = pre_logs(3, vec![]);
     c.msgs = vec!["q".repeat(4)];
     v.push((c, if tier == Tier::Quick { 4 } else { 5 }));
+    // more bars than rows, with visibly finished bars among them (general oracle, bars may be omitted)
+    for (w, h) in [(6usize, 2usize), (6, 1), (4, 3)] {
+        let mut c = Cfg::base("c19-overflow-finished", w, h);
+        c.may_omit = true;
+        c.max_bars = 3;
+        c.inserts = false;
+        c.suspend = false;
+        c.bar_println = false;
+        c.remove = false;
+        c.clear = false;
+        c.root = vec![Op::Add, Op::Add, Op::Add, Op::Tick(0), Op::Tick(1), Op::Tick(2)];
+        c.msgs = vec![];
+        v.push((c, if tier == Tier::Quick { 5 } else { 6 }));
+    }
     // rate-limited target with the limiter exhausted on a short terminal: removing a bar makes room for an
     // omitted one at once; a finished bar whose text changes under the limiter is reaped by its real rows
     let mut c = Cfg::base("c19-hz1-remove", 6, 2);
